@@ -402,6 +402,11 @@ def build(prog):
             c = ((xx - x0_) ** 2 <= 7 / 8)
             pep.add_constraint(c)
             f.add_constraint(c)
+        elif code == "pq":          # an equality with a non-zero constant (a free leaf keeps it feasible whatever its sign)
+            t_ = Expression()
+            c = (t_ + (xx - x0_) ** 2 == 1 / 16)
+            pep.add_constraint(c)
+            b.held["t_pq"] = t_
         elif code == "pS":          # an (active) condition written with large coefficients: 2^16 |x - x0|^2 <= 2^16 / 64
             c = (65536 * (xx - x0_) ** 2 <= 1024)
             pep.add_constraint(c)
